@@ -1,7 +1,13 @@
 import GoaVerif.Prelude.Hex
 import GoaVerif.Model.Validation
+import GoaVerif.Lemmas.ValCode
 /-!
-`validate <att> <val>` → `called` | `rejected <first> <names,sorted,unique>`.
+`validate <att> <val>` → `called` | `rejected <first> <names,sorted,unique>` ·
+`compile <att>` → `code <canonical statements>`: `ValCode.compileBody`, printed like `rtvalcode run` prints
+the Go code the real generator emits · `runcode <att> <val>` → verdict of `ValCode.runL (compileBody att) val`
+in the format of `validate` (first = `-`) · `judge <att> <val>` →
+`spec=<called|rejected:names> model=<…> hyp=<okCtx typed noBothEx collOK>` (compared with `rtvalcode run`, which reads the
+Go code the real generator emits on the same value).
 
 Prefix encoding (built by vlib/c04.py from the design IR and the value sent):
 * att: `P b|s|y <rules>` · `P n <isInt> <lo|~> <hi|~> <rules>` · `A <rules> <att>` ·
@@ -126,6 +132,39 @@ def render : Outcome → String
   | .rejected first all =>
     "rejected " ++ first.name ++ " " ++ ",".intercalate (all.foldl (fun acc v => insertSorted v.name acc) [])
 
+def ratStr (r : Rat') : String := s!"{r.num}/{r.den}"
+
+def goify (n : String) : String := n.capitalize
+
+open GoaVerif.ValCode in
+def condStr : Cond → String
+  | .notInNums xs => "enumn[" ++ ",".intercalate (xs.map ratStr) ++ "]"
+  | .notInStrs xs => "enums[" ++ ",".intercalate (xs.map encString) ++ "]"
+  | .badFormat => "fmt"
+  | .badPattern => "pat"
+  | .lt b => "lt:" ++ ratStr b
+  | .gt b => "gt:" ++ ratStr b
+  | .le b => "le:" ++ ratStr b
+  | .ge b => "ge:" ++ ratStr b
+  | .runesLt n => s!"runeslt:{n}"
+  | .runesGt n => s!"runesgt:{n}"
+  | .lenLt n => s!"lenlt:{n}"
+  | .lenGt n => s!"lengt:{n}"
+
+open GoaVerif.ValCode in
+mutual
+def show1 (t : String) : Code → String
+  | .check v c => "chk(" ++ v.name ++ "," ++ condStr c ++ "," ++ t ++ ");"
+  | .ifNonNil b => "nn(" ++ t ++ "){" ++ showL t b ++ "};"
+  | .field n b => showL (t ++ "." ++ goify n) b
+  | .missing n => "miss(" ++ t ++ "." ++ goify n ++ ");"
+  | .each b => "each(" ++ t ++ "){" ++ showL "e" b ++ "};"
+  | .eachKV k e => "kv(" ++ t ++ "){" ++ showL "k" k ++ "}{" ++ showL "v" e ++ "};"
+def showL (t : String) : List Code → String
+  | [] => ""
+  | c :: cs => show1 t c ++ showL t cs
+end
+
 def handle : List String → Option String
   | "validate" :: toks => do
     let fuel := toks.length + 2
@@ -133,6 +172,31 @@ def handle : List String → Option String
     let (v, ts) ← parseVal fuel ts
     if !ts.isEmpty then none else
     some (render (GoaVerif.Validation.handle fuel a v))
+  | "compile" :: toks => do
+    let fuel := toks.length + 2
+    let (a, ts) ← parseAtt fuel toks
+    if !ts.isEmpty then none else
+    some ("code " ++ showL "body" (GoaVerif.ValCode.compileBody fuel a))
+  | "judge" :: toks => do
+    -- specification verdict, verdict of the model's code, and the hypotheses of `emitted_code_gates`
+    let fuel := toks.length + 2
+    let (a, ts) ← parseAtt fuel toks
+    let (v, ts) ← parseVal fuel ts
+    if !ts.isEmpty then none else
+    let names (l : List Viol) : String :=
+      if l.isEmpty then "called" else "rejected:" ++ ",".intercalate (l.foldl (fun acc v => insertSorted v.name acc) [])
+    let bit (b : Bool) : String := if b then "1" else "0"
+    some ("spec=" ++ names (violations fuel a v) ++ " model=" ++ names (GoaVerif.ValCode.runL (GoaVerif.ValCode.compileBody fuel a) v) ++
+      " hyp=" ++ bit (GoaVerif.ValCode.okCtx fuel true a) ++ bit (GoaVerif.ValCode.typed fuel a v) ++
+      bit (GoaVerif.ValCode.noBothEx fuel a) ++ bit (GoaVerif.ValCode.collOK fuel a v))
+  | "runcode" :: toks => do
+    let fuel := toks.length + 2
+    let (a, ts) ← parseAtt fuel toks
+    let (v, ts) ← parseVal fuel ts
+    if !ts.isEmpty then none else
+    match GoaVerif.ValCode.runL (GoaVerif.ValCode.compileBody fuel a) v with
+    | [] => some "called"
+    | all => some ("rejected - " ++ ",".intercalate (all.foldl (fun acc v => insertSorted v.name acc) []))
   | _ => none
 
 end GoaVerif.Drive.Validation
